@@ -203,6 +203,7 @@ type Event struct {
 	Deref  []*Sym // for pointer arguments to tracked locals: the value pointed to at the time of the call
 	Inlined bool  // the callee was interpreted in place (the event records the call and its arguments only)
 	Resolved bool // Callee was resolved from a function value (table entry, closure, method value), not a static call
+	TailLoop bool // not a call instruction: a loop that carries only the function's parameters going round again (Instr is a representative recursive call)
 }
 
 type pstate struct {
@@ -1301,6 +1302,40 @@ func (ps *PathSim) walk(fn *ssa.Function, b *ssa.BasicBlock, start int, pred *ss
 			return
 		}
 		havocNow := false
+		if start == 0 && pred != nil {
+			if args, rep, retI, ok := ps.tailSelfCall(fn, b, pred, st); ok {
+				// a loop whose only carried state is the function's own parameters: going round once more is calling the
+				// function again with the new values and returning what that call returns
+				ev := Event{Instr: rep, In: fn, Callee: fn, Args: args, Deref: make([]*Sym, len(args)), TailLoop: true}
+				st.iters[rep]++
+				var res *Sym
+				if ps.Model != nil {
+					res = ps.Model(&ev)
+				}
+				if res == nil {
+					res = &Sym{K: sCall, V: rep, T: rep.Type(), iter: st.iters[rep], Fn: fn}
+				}
+				ev.Res = res
+				st.events = append(st.events, ev)
+				if ps.OnEvent != nil {
+					ps.OnEvent(st, &st.events[len(st.events)-1])
+				}
+				var results []*Sym
+				n := fn.Signature.Results().Len()
+				for i := 0; i < n; i++ {
+					if res.K == sTuple && i < len(res.Kids) {
+						results = append(results, res.Kids[i])
+					} else if n == 1 {
+						results = append(results, res)
+					} else {
+						results = append(results, &Sym{K: sRes, A: res, Idx: i, T: fn.Signature.Results().At(i).Type()})
+					}
+				}
+				st.trail = append(st.trail, fmt.Sprintf("%s.b%d:again", fn.Name(), pred.Index))
+				ret(st, retI, results)
+				return
+			}
+		}
 		if start == 0 {
 			st.visits[b]++
 			if st.visits[b] > ps.maxVisits {
@@ -1600,4 +1635,73 @@ func unwrapThunk(f *ssa.Function) *ssa.Function {
 		}
 	}
 	return call.Call.StaticCallee()
+}
+
+// tailSelfCall: b is the header of a loop of fn that (1) is entered directly from a bare entry block, (2) carries nothing
+// but new values for fn's own parameters (every phi merges a parameter on the entry edge), and pred is a back edge.
+// Returns the arguments of the equivalent recursive call, a representative recursive call instruction and a return.
+func (ps *PathSim) tailSelfCall(fn *ssa.Function, b, pred *ssa.BasicBlock, st *pstate) ([]*Sym, *ssa.Call, *ssa.Return, bool) {
+	if len(fn.Blocks) < 2 || fn.Blocks[0] == pred || b != fn.Blocks[1] || len(fn.Blocks[0].Succs) != 1 || fn.Blocks[0].Succs[0] != b {
+		return nil, nil, nil, false
+	}
+	for _, ins := range fn.Blocks[0].Instrs {
+		switch ins.(type) {
+		case *ssa.Jump, *ssa.DebugRef:
+		default:
+			return nil, nil, nil, false
+		}
+	}
+	entryIdx, predIdx := -1, -1
+	for i, p := range b.Preds {
+		if p == fn.Blocks[0] {
+			entryIdx = i
+		}
+		if p == pred {
+			predIdx = i
+		}
+	}
+	if entryIdx < 0 || predIdx < 0 {
+		return nil, nil, nil, false
+	}
+	newVal := map[*ssa.Parameter]*Sym{}
+	nphi := 0
+	for _, ins := range b.Instrs {
+		phi, ok := ins.(*ssa.Phi)
+		if !ok {
+			break
+		}
+		nphi++
+		p, ok := phi.Edges[entryIdx].(*ssa.Parameter)
+		if !ok || p.Parent() != fn || newVal[p] != nil {
+			return nil, nil, nil, false
+		}
+		newVal[p] = ps.sym(st, phi.Edges[predIdx])
+	}
+	if nphi == 0 {
+		return nil, nil, nil, false
+	}
+	var rep *ssa.Call
+	var retI *ssa.Return
+	for _, blk := range fn.Blocks {
+		for _, ins := range blk.Instrs {
+			if c, ok := ins.(*ssa.Call); ok && rep == nil && c.Call.StaticCallee() == fn {
+				rep = c
+			}
+			if r, ok := ins.(*ssa.Return); ok && retI == nil {
+				retI = r
+			}
+		}
+	}
+	if rep == nil || retI == nil {
+		return nil, nil, nil, false
+	}
+	var args []*Sym
+	for _, p := range fn.Params {
+		if v, ok := newVal[p]; ok {
+			args = append(args, v)
+		} else {
+			args = append(args, ps.sym(st, p))
+		}
+	}
+	return args, rep, retI, true
 }
